@@ -127,23 +127,83 @@ package rewards
 // Everything that goes through float64 (seconds per cycle, forecast of remaining blocks) and the
 // Tendermint block store is uninterpreted: only the integer part is under contract.
 
-// reads block times from the Tendermint block store (external dependency, not in /repo): assumed frame only
-//@ assume func (*RewardCalculator).secondsPerCycleLatest
+// ---- restart independence (C13: "the per-block amount does not depend on when, within a calculation cycle, a node
+// was restarted"): everything a cache miss computes is a function of the block store and of the FIRST block of the
+// running cycle, never of the height at which the miss happens.
+//
+// Tendermint's block store is an external dependency: what LoadBlockMeta returns is (trusted) a function of the store
+// and the height. bmHas(bs,h): a meta is stored for h; bmTime(bs,h): its header time.
+//@ ghost func bmHas(bs *store.BlockStore, h int) bool
+//@ ghost func bmTime(bs *store.BlockStore, h int) int
+//@ assume func github.com/tendermint/tendermint/store.(*BlockStore).LoadBlockMeta
 //@   modifies nothing
+//@   ensures (result != nil) == bmHas(self, arg0)
+//@   ensures result != nil ==> result.Header.Time == bmTime(self, arg0)
+// time.Duration.Seconds is a function of the duration (floats are uninterpreted)
+//@ assume extern func time.(Duration).Seconds
+//@   modifies nothing
+//@   ensures result == @f64_dur_seconds(self)
+
+// cycleStart(h,c): the first block of the cycle that contains height h: (h-1)/c*c + 1 = h - (h-1) mod c  (h >= 1, c > 0; the body's
+// int64 expression (calc.height-1)/cycle*cycle + 1 is proved equal to it)
+//@ ghost func cycleStart(h int, c int) int = h - ((h - 1) % c)
+// secsBetween(bs, a, b): whole seconds between the block times of heights b and a, as the code converts them
+//@ ghost func secsBetween(bs *store.BlockStore, a int, b int) int = wrap64(@int_of_f64(@f64_dur_seconds(wrap64(@time_sub(bmTime(bs, a), bmTime(bs, b))))))
+// spc(bs, start, c, est): seconds per cycle as measured at a cycle whose first block is `start`: the time between that
+// block and the first block of the previous cycle; during the very first cycle (start <= c) the configured estimate
+//@ ghost func spc(bs *store.BlockStore, start int, c int, est int) int = start > c ? secsBetween(bs, start, wrap64(start - c)) : est
+// spcEnd: the instant the forecast counts from: the time of the cycle's first block (block 1 during the first cycle)
+//@ ghost func spcEnd(bs *store.BlockStore, start int, c int) int = start > c ? bmTime(bs, start) : bmTime(bs, 1)
+
+//@ func (*RewardCalculator).secondsPerCycleLatest
+//@   safety C18
+//@   requires calc != nil && calc.options != nil                                                               // C18.nil-options
+//@   requires metasOK(calc)                                                                                    // C18.blockmeta
+//@   modifies nothing
+//@   ensures (calc.height > calc.options.BlockSpeedCalculateCycle) == (cycleStart(calc.height, calc.options.BlockSpeedCalculateCycle) > calc.options.BlockSpeedCalculateCycle)   // C13.restart-independent
+//@   ensures result0 == spc(calc.blockStore, cycleStart(calc.height, calc.options.BlockSpeedCalculateCycle), calc.options.BlockSpeedCalculateCycle, calc.options.EstimatedSecondsPerCycle)   // C13.restart-independent
+//@   ensures result1 == spcEnd(calc.blockStore, cycleStart(calc.height, calc.options.BlockSpeedCalculateCycle), calc.options.BlockSpeedCalculateCycle)   // C13.restart-independent
 
 // fcBlocks(calc): ghost record of the last forecast "number of more blocks before year close"
 //@ model fcBlocks(*RewardCalculator) int
 
+// ---- the forecast as a function of the cycle (C13.restart-independent, continued)
+// cS(calc): first block of the running cycle; the two values secondsPerCycleLatest yields for it
+//@ ghost func cS(calc *RewardCalculator) int = cycleStart(calc.height, calc.options.BlockSpeedCalculateCycle)
+//@ ghost func cSpc(calc *RewardCalculator) int = spc(calc.blockStore, cS(calc), calc.options.BlockSpeedCalculateCycle, calc.options.EstimatedSecondsPerCycle)
+//@ ghost func cEnd(calc *RewardCalculator) int = spcEnd(calc.blockStore, cS(calc), calc.options.BlockSpeedCalculateCycle)
+// secsTo(close, t): whole seconds from instant t to a year's close time; blocksIn(secs, c, spcv): blocks that fit, at
+// c blocks per spcv seconds (float division, uninterpreted but a function of its arguments)
+//@ ghost func secsTo(close int, t int) int = wrap64(@int_of_f64(@f64_dur_seconds(wrap64(@time_sub(close, t)))))
+//@ ghost func blocksIn(secs int, c int, spcv int) int = wrap64(@int_of_f64(@f64_div(@f64_of_int(wrap64(secs * c)), @f64_of_int(spcv))))
+// yearSkipped(calc, j): year j does not take the forecast (closes within the window, or no block fits)
+//@ ghost func yearN(calc *RewardCalculator, j int) int = blocksIn(secsTo(calc.rewardYears.Years[j].CloseTime, cEnd(calc)), calc.options.BlockSpeedCalculateCycle, cSpc(calc))
+//@ ghost func yearSkipped(calc *RewardCalculator, j int) bool = secsTo(calc.rewardYears.Years[j].CloseTime, cEnd(calc)) < calc.options.YearCloseWindow || yearN(calc, j) == 0
+// forecastIs(calc, n, y): (n, y) is THE forecast of the running cycle: y is the first year not skipped and n its block
+// count, or (0, -1) when every year is skipped. calc.height occurs in it only through cS(calc): two cache misses at
+// different heights of one cycle (same store, year table, options) obtain the same (n, y).
+//@ ghost func forecastHead(calc *RewardCalculator, n int, y int) bool = y >= 0 - 1 && y < len(calc.rewardYears.Years) && (y >= 0 ==> !yearSkipped(calc, y) && n == yearN(calc, y)) && (y < 0 ==> n == 0)
+//@ ghost func forecastSkips(calc *RewardCalculator, y int) bool = forall j int :: { @time_sub(calc.rewardYears.Years[j].CloseTime, cEnd(calc)) } 0 <= j && j < (y >= 0 ? y : len(calc.rewardYears.Years)) ==> yearSkipped(calc, j)
+//@ ghost func forecastIs(calc *RewardCalculator, n int, y int) bool = forecastHead(calc, n, y) && forecastSkips(calc, y)
+// what secondsPerCycleLatest needs: the block store holds the metas of all blocks up to the current height (it reads block 1,
+// the cycle's first block and the previous cycle's first block); stated without the cycle arithmetic to keep callers' queries linear
+//@ ghost func metasOK(calc *RewardCalculator) bool = calc.blockStore != nil && calc.options.BlockSpeedCalculateCycle > 0 && calc.height >= 1 && (forall h int :: { bmHas(calc.blockStore, h) } 1 <= h && h <= calc.height ==> bmHas(calc.blockStore, h))
+
 // the forecast is 0 exactly when every reward year is over (index -1); otherwise the index is a valid year
 //@ func (*RewardCalculator).numofMoreBlocksBeforeYearClose
 //@   safety C18
+//@   opaque-arith
 //@   requires calc != nil && calc.options != nil                                                               // C18.nil-options
+//@   requires metasOK(calc)                                                                                    // C18.blockmeta
 //@   modifies fcBlocks(calc)
 //@   update fcBlocks(calc) := result0
 //@   ensures (result0 != 0) == (0 <= result1 && result1 < len(calc.rewardYears.Years))                         // C18.year-index
 //@   ensures result0 == 0 ==> result1 == 0 - 1                                                                 // C13.burnout
 //@   ensures fcBlocks(calc) == result0                                                                         // C13.schedule
-//@   invariant loop1: 0 <= $i && $i <= len(calc.rewardYears.Years) && numofMoreBlocks == 0   // C18.year-index
+//@   ensures forecastHead(calc, result0, result1)                                                              // C13.restart-independent
+//@   ensures forecastSkips(calc, result1)                                                                      // C13.restart-independent
+//@   invariant loop1: 0 <= $i && $i <= len(calc.rewardYears.Years) && numofMoreBlocks == 0 && secsPerCycle == cSpc(calc) && tCycleEnd == cEnd(calc)   // C18.year-index
+//@   invariant loop1: forall j int :: { @time_sub(calc.rewardYears.Years[j].CloseTime, cEnd(calc)) } 0 <= j && j < $i ==> yearSkipped(calc, j)                                // C13.restart-independent
 
 // yearLeft(calc, y): what is left of year y's supply at the start of the running cycle, for the year table the calculator holds
 //@ ghost func yearLeft(calc *RewardCalculator, y int) int = calc.options.YearBlockRewardShares[y] - big(calc.rewardYears.Years[y].TillLastCycle)
@@ -151,7 +211,7 @@ package rewards
 // cacheOK(calc): the cached per-block amount is within the schedule for the year table the calculator
 // currently holds (what Calculate establishes whenever it recalculates; needed when it reuses the cache):
 // with a positive forecast n of remaining blocks, 0 <= amount and amount*n <= yearLeft.
-//@ ghost func cacheOK(calc *RewardCalculator) bool = (calc.cached.burnedout ==> big(calc.cached.amount) == calc.options.BurnoutRate) && (!calc.cached.burnedout ==> 0 <= calc.cached.year && calc.cached.year < len(calc.rewardYears.Years) && (fcBlocks(calc) > 0 ==> 0 <= big(calc.cached.amount) && big(calc.cached.amount) * fcBlocks(calc) <= yearLeft(calc, calc.cached.year)))
+//@ ghost func cacheOK(calc *RewardCalculator) bool = (calc.cached.burnedout ==> big(calc.cached.amount) == calc.options.BurnoutRate) && (!calc.cached.burnedout ==> 0 <= calc.cached.year && calc.cached.year < len(calc.rewardYears.Years) && (fcBlocks(calc) > 0 ==> 0 <= big(calc.cached.amount) && big(calc.cached.amount) * fcBlocks(calc) <= yearLeft(calc, calc.cached.year) && big(calc.cached.amount) <= yearLeft(calc, calc.cached.year)))
 
 //@ func (*RewardCalculator).Calculate
 //@   safety C18
@@ -160,7 +220,14 @@ package rewards
 //@   requires len(calc.rewardYears.Years) == len(calc.options.YearBlockRewardShares)                           // C18.year-index
 //@   requires forall i int :: 0 <= i && i < len(calc.rewardYears.Years) ==> calc.rewardYears.Years[i].TillLastCycle != nil && allocated(calc.rewardYears.Years[i].TillLastCycle)   // C18.nil-amount
 //@   requires calc.cached.cycleNo > 0 && (calc.cached.burnedout || @go_rem(wrap64(calc.height - 1), calc.options.BlockSpeedCalculateCycle) != 0) ==> cacheOK(calc)   // C13.cache-inv
+//@   requires metasOK(calc)                                                                                    // C18.blockmeta
 //@   modifies calc.cached, *calc.cached.amount, fcBlocks(calc)
+// a cache miss (cold cache, e.g. after a restart) at ANY height of the cycle computes the forecast of the cycle
+// (forecastIs mentions the height only through the cycle's first block) and divides what was left at the cycle start by it
+//@   ensures old(calc.cached.cycleNo) <= 0 && err == nil ==> forecastHead(calc, fcBlocks(calc), calc.cached.year) && forecastSkips(calc, calc.cached.year) && calc.cached.burnedout == (fcBlocks(calc) == 0)   // C13.restart-independent
+// (NOT carried further: "the amount on a miss is the floor quotient left/n of that forecast" — amt*n <= left is C13.schedule below,
+//  the other half left < amt*n + n and the term form amt == left/n are valid but not proved reliably next to the other nonlinear
+//  terms of this function; see report.)
 //@   ensures amt != nil && fresh(amt) && calc.cached.amount == old(calc.cached.amount)                        // C13.schedule
 //@   ensures err == nil && calc.cached.burnedout ==> big(amt) == calc.options.BurnoutRate                      // C13.burnout
 //@   ensures err == nil && !calc.cached.burnedout ==> 0 <= calc.cached.year && calc.cached.year < len(calc.rewardYears.Years)   // C18.year-index
@@ -173,7 +240,7 @@ package rewards
 // cumCacheOK(rws): store-level form of cacheOK, against the recorded year table (yTill) instead of the
 // pointers of one decoded copy. Established by PullRewards whenever it recalculates; preserved by
 // ConsumeRewards except at the last block of a cycle (after which the next block recalculates).
-//@ ghost func cumCacheOK(rws *RewardCumulativeStore) bool = (rws.calculator.cached.burnedout ==> big(rws.calculator.cached.amount) == rws.rewardOptions.BurnoutRate) && (!rws.calculator.cached.burnedout ==> 0 <= rws.calculator.cached.year && rws.calculator.cached.year < yCount(rws) && (fcBlocks(rws.calculator) > 0 ==> 0 <= big(rws.calculator.cached.amount) && big(rws.calculator.cached.amount) * fcBlocks(rws.calculator) <= rws.rewardOptions.YearBlockRewardShares[rws.calculator.cached.year] - yTill(rws)[rws.calculator.cached.year]))
+//@ ghost func cumCacheOK(rws *RewardCumulativeStore) bool = (rws.calculator.cached.burnedout ==> big(rws.calculator.cached.amount) == rws.rewardOptions.BurnoutRate) && (!rws.calculator.cached.burnedout ==> 0 <= rws.calculator.cached.year && rws.calculator.cached.year < yCount(rws) && (fcBlocks(rws.calculator) > 0 ==> 0 <= big(rws.calculator.cached.amount) && big(rws.calculator.cached.amount) * fcBlocks(rws.calculator) <= rws.rewardOptions.YearBlockRewardShares[rws.calculator.cached.year] - yTill(rws)[rws.calculator.cached.year] && big(rws.calculator.cached.amount) <= rws.rewardOptions.YearBlockRewardShares[rws.calculator.cached.year] - yTill(rws)[rws.calculator.cached.year]))
 
 // pulledOK: what PullRewards guarantees about the amount it returns (also the invariant of its logging loop,
 // whose boxing of integers makes the engine havoc the integer heap)
@@ -185,12 +252,13 @@ package rewards
 //@ func (*RewardCumulativeStore).PullRewards
 //@   safety C18
 //@   requires rws != nil && rws.calculator != nil && rws.rewardOptions != nil && rws.calculator.options == rws.rewardOptions && rws.calculator.cached.amount != nil && allocated(rws.calculator.cached.amount) && poolAmt != nil   // C18.nil-options
-//@   requires rws.rewardOptions.BlockSpeedCalculateCycle != 0                                                  // C18.div-zero
+//@   requires rws.rewardOptions.BlockSpeedCalculateCycle > 0                                                   // C18.div-zero
+//@   requires rws.calculator.blockStore != nil && height >= 1 && (forall h int :: { bmHas(rws.calculator.blockStore, h) } 1 <= h && h <= height ==> bmHas(rws.calculator.blockStore, h))   // C18.blockmeta
 //@   requires yCount(rws) == len(rws.rewardOptions.YearBlockRewardShares)                                      // C18.year-index
 //@   requires rws.calculator.cached.cycleNo > 0 && (rws.calculator.cached.burnedout || @go_rem(wrap64(height - 1), rws.rewardOptions.BlockSpeedCalculateCycle) != 0) ==> cumCacheOK(rws)   // C13.cache-inv
 //@   modifies *rws.calculator, *rws.calculator.cached.amount, fcBlocks(rws.calculator), lastPulled(rws), vHas(rws.state), vVal(rws.state)
 //@   update lastPulled(rws) := big(amount)
-//@   ensures rws.calculator.options == old(rws.calculator.options) && rws.calculator.cached.amount == old(rws.calculator.cached.amount) && (err == nil ==> rws.calculator.height == height)   // C13.schedule
+//@   ensures rws.calculator.options == old(rws.calculator.options) && rws.calculator.blockStore == old(rws.calculator.blockStore) && rws.calculator.cached.amount == old(rws.calculator.cached.amount) && (err == nil ==> rws.calculator.height == height)   // C13.schedule
 //@   ensures err == nil ==> amount != nil && fresh(amount) && lastPulled(rws) == big(amount)                   // C13.schedule
 //@   ensures err == nil && rws.calculator.cached.burnedout ==> big(amount) <= big(poolAmt) && big(amount) <= rws.rewardOptions.BurnoutRate   // C13.burnout-capped
 //@   ensures err == nil && rws.calculator.cached.burnedout && big(poolAmt) >= 0 && rws.rewardOptions.BurnoutRate >= 0 ==> big(amount) >= 0   // C13.burnout-capped
